@@ -142,6 +142,32 @@ def oracle_blocksz(ctx, n, sizes=None, sig_known=True):
                     sig = 'gate:blockzero>=8096-needs-2-messages-3-lines'
                 fails.append({'signature': sig, 'detail': f'--blocksz {bs}: rc={rc} vs {rc0}; ' + first_diff(out, out0),
                               'args': e2e.BASE_ARGS + ['--blocksz', str(bs), 'FILE'], 'file_hex': small_hex(log.data)})
+        # streamed containers read their blocks one way only: the same log as .gz / .bz2 at block sizes such that a LINE STARTS exactly on a
+        # block boundary (the reader then needs the byte before the block start; seeded change C12-d) - against the same container at the default
+        if out0 and k % 2 == 0:
+            starts = [i + 1 for i, c in enumerate(log.data[:4000]) if c == 10 and i + 1 < len(log.data)]
+            sbs = set()
+            for o in starts:
+                for div in (1, 2, 3, 4):
+                    if o % div == 0 and o // div >= 64:
+                        sbs.add(o // div)
+            sbs = sorted(sbs)
+            sbs = sbs[:6] + sbs[-3:] if len(sbs) > 9 else sbs
+            for kind in ('gz', 'bz2'):
+                pk = p + e2e.SUFFIX[kind]
+                e2e.pack(log.data, kind, pk, inner_name=os.path.basename(p))
+                rck, outk, _, _ = run_plain(pk)
+                ev += 1
+                for bs in sbs:
+                    rc, out, err, _ = run_plain(pk, ['--blocksz', str(bs)])
+                    ev += 1
+                    if (rc, out) != (rck, outk):
+                        rcn, outn, _, _ = run_plain(p, ['--blocksz', str(bs)])
+                        if (rcn, outn) != (rc0, out0):
+                            continue                # the plain file differs at this block size as well: reported (or attributed to the gate) above
+                        fails.append({'signature': 'blocksz:stdout-differs-from-default', 'detail': f'{kind} --blocksz {bs} (a line starts on a block boundary): rc={rc} vs {rck}; ' + first_diff(out, outk),
+                                      'args': e2e.BASE_ARGS + ['--blocksz', str(bs), 'FILE' + e2e.SUFFIX[kind]], 'file_hex': small_hex(log.data)})
+                os.unlink(pk)
         # the same with colour on: the escape sequences around the timestamp are part of the printed output too, and the
         # highlighting code walks the line's parts (one per block) on its own. Block sizes such that the END of a
         # message's timestamp falls exactly on / next to a block boundary are added.
